@@ -45,6 +45,8 @@ func draw(t *rapid.T) Case {
 	}
 	// near-misses that the property judges: absent member / out of range / negative / below absent or scalar
 	g.MissKinds = []int{0, 1, 3, 4, 5, 6, 9}
+	g.Swarm(t)
+	g.Orig = doc.Clone()
 	ro := ref.Opts{Neg: neg}
 	st := &ref.State{Root: doc.Clone()}
 	var ops []ref.Op
